@@ -8,6 +8,6 @@ CONSTANTS
   MaxBatch = 2
   SlowThr = 1
 SPECIFICATION LiveSpec
-INVARIANTS TypeOK SafeRemoval NoRequestBelowOldHeader
-PROPERTIES EventuallySyncedAndSampled EventuallyPruned
+INVARIANT SlowSyncNeverHolds
+
 CHECK_DEADLOCK FALSE
